@@ -245,14 +245,17 @@ def _planner(runner: Runner, depth: int):
     table = jnp.asarray(np.stack([np.asarray(a) for a in acts]))
 
     def roll(state, seq):
-        def body(carry, i):
+        def body(carry, xi):
             s, alive, surv, ret = carry
+            i, j = xi
             s2, ts = env.step(s, table[i])
-            ret = ret + jnp.where(alive, jnp.sum(ts.reward), 0.0)
+            r = jnp.sum(ts.reward).astype(jnp.float32)
+            ret = ret + jnp.where(alive, r, 0.0)
             alive2 = alive & ~ts.last()
-            return (s2, alive2, surv + alive2.astype(jnp.int32), ret), None
+            surv = surv + alive2.astype(jnp.int32)
+            return (s2, alive2, surv, ret), None
 
-        (_, _, surv, ret), _ = jax.lax.scan(body, (state, jnp.array(True), jnp.array(0, jnp.int32), jnp.array(0.0, jnp.float32)), seq)
+        (_, _, surv, ret), _ = jax.lax.scan(body, (state, jnp.array(True), jnp.array(0, jnp.int32), jnp.array(0.0, jnp.float32)), (seq, jnp.arange(depth)))
         return surv, ret
 
     f = jax.jit(jax.vmap(roll, in_axes=(None, 0)))
